@@ -3,7 +3,7 @@
 # compiles, demo fails with it, repo test suite passes with it, demo passes without it.
 # On success copies it to /verif/seeded/<ID>-m<k>/ and writes confirm.json there.
 ID=$1; K=$2
-R=${3:-}; W=/tmp/seed$R-$ID; O=/tmp/seed$R-$ID-out/m$K; N=$K; [ "$R" = "2" ] && N=$((K+2)); [ "$R" = "3" ] && N=$((K+4)); S=/verif/seeded/$ID-m$N
+R=${3:-}; W=/tmp/seed$R-$ID; O=/tmp/seed$R-$ID-out/m$K; N=$K; [ "$R" = "2" ] && N=$((K+2)); [ "$R" = "3" ] && N=$((K+4)); [ "$R" = "4" ] && N=$((K+6)); S=/verif/seeded/$ID-m$N
 LOG=$O/confirm.log; : > $LOG
 cd $W || exit 2
 git checkout -q -- . ; git apply $O/patch.diff || { echo "patch does not apply" | tee -a $LOG; exit 2; }
